@@ -62,6 +62,13 @@ func loadC19Progs(baseSeed uint64, nGen int) []*c19Prog {
 	out = append(out, &c19Prog{Name: "grid_flat", Header: []string{"\tORG\t0x7c00"}, Body: []string{"entry:", "\tMOV\tAX,0", "\tMOV\tSS,AX", "\tMOV\tSI,msg", "putloop:", "\tMOV\tAL,[SI]", "\tADD\tSI,1", "\tCMP\tAL,0", "\tJE\tfin", "\tMOV\tAH,0x0e", "\tINT\t0x10", "\tJMP\tputloop", "fin:", "\tHLT", "\tJMP\tfin", "msg:", "\tDB\t0x0a, 0x0a", "\tDB\t\"hello, world\"", "\tDB\t0x0a", "\tDB\t0", "\tRESB\t40"}})
 	out = append(out, &c19Prog{Name: "grid_coff", Coff: true, Header: []string{`[FORMAT "WCOFF"]`, `[INSTRSET "i486p"]`, "[BITS 32]", `[FILE "naskfunc.nas"]`},
 		Body: []string{"\tGLOBAL\t_io_hlt, _io_cli, _io_out8, _io_load_eflags_long_name", "[SECTION .text]", "_io_hlt:", "\tHLT", "\tRET", "_io_cli:", "\tCLI", "\tRET", "_io_out8:", "\tMOV\tEDX,[ESP+4]", "\tMOV\tAL,[ESP+8]", "\tOUT\tDX,AL", "\tRET", "_io_load_eflags_long_name:", "\tPUSHFD", "\tPOP\tEAX", "\tRET"}})
+	// boundary sizes: images of exactly 0, 1, a block, a buffer, many buffers
+	for _, n := range []int{0, 1, 511, 512, 513, 4095, 4096, 4097, 65535, 65536, 65537, 131072, 196608} {
+		out = append(out, &c19Prog{Name: fmt.Sprintf("bnd_resb_%d", n), Body: []string{fmt.Sprintf("\tRESB\t%d", n)}})
+	}
+	out = append(out, &c19Prog{Name: "bnd_rom128k", Header: []string{"\tORG\t0"}, Body: []string{"\tDB\t0xeb, 0xfe", "\tRESB\t0x20000-$"}})
+	out = append(out, &c19Prog{Name: "bnd_data64k", Body: []string{"\tRESB\t65535", "\tDB\t0x55"}})
+	out = append(out, &c19Prog{Name: "bnd_labels_only", Body: []string{"a:", "b:", "X\tEQU\t5"}})
 	// larger images: implementations that write in blocks show several write calls in the trace
 	var bigBody []string
 	bigBody = append(bigBody, "start:")
